@@ -62,7 +62,9 @@ type C09Params struct {
 	Layer   int // 1, 2, 3
 	Clients []C09Client
 	// Background operation racing with the LAST client ("evict": evictIdleDnsForwarders(now), "retire":
-	// ResetDnsForwarders()). With "evict" every client but the last runs first, then the idle TTL passes.
+	// ResetDnsForwarders(), "retire-late": the same after one upstream latency, i.e. at the instant the first
+	// exchanges complete, "retire-last": ResetDnsForwarders() racing with the last client only). With "evict" and
+	// "retire-last" every client but the last runs first; with "evict" the idle TTL passes then.
 	Background string
 	// After: a retirement route taken sequentially once every client is done ("evict": the idle TTL passes, then
 	// evictIdleDnsForwarders(now)). Every scenario ends with retire-all (ResetDnsForwarders) + quiescence anyway.
@@ -79,6 +81,15 @@ type C09Params struct {
 	// Upstream behaviours enabled (names, choice 0 = "ok" is always first). Empty = all of the layer.
 	Behaviours []string
 	MaxSteps   int
+	// DialLatency: establishing an upstream TCP connection takes this much (virtual) time, so that several
+	// queries can be dialing at once (a cold-start burst); 0 = a dial completes within the caller's step.
+	DialLatency time.Duration
+	// DialStagger: the k-th dial started takes k*DialStagger longer, so that dials started together
+	// complete one after the other in a fixed order instead of in every order (n! free timer orders).
+	DialStagger time.Duration
+	// PoolMax > 0 lowers the capacity of the real DoTCP connection pool (production: 4) for this scenario, so that a
+	// burst of PoolMax+1 queries already has more dials under way than the pool may hold.
+	PoolMax int
 }
 
 const (
@@ -87,7 +98,10 @@ const (
 	c9UpstreamIP = "192.0.2.1"
 )
 
-var c9Names = []string{"a.c9.test.", "b.c9.test.", "c.c9.test."}
+var c9Names = []string{"a.c9.test.", "b.c9.test.", "c.c9.test.", "d.c9.test.", "e.c9.test."}
+
+// c9BaseNames: foreign answers for the first three names stay within them (a->b->c->a), d and e wrap around all five.
+const c9BaseNames = 3
 
 // ---- tagged answers ---------------------------------------------------------------------------------------
 
@@ -250,7 +264,11 @@ func c9Foreign(q dnsmessage.Question, kind string) dnsmessage.Question {
 		}
 		return f
 	}
-	f.Name = c9Names[(c9NameIdx(q.Name)+1)%len(c9Names)]
+	if i := c9NameIdx(q.Name); i < c9BaseNames {
+		f.Name = c9Names[(i+1)%c9BaseNames]
+	} else {
+		f.Name = c9Names[(i+1)%len(c9Names)]
+	}
 	return f
 }
 
@@ -323,6 +341,9 @@ type c9Env struct {
 	imageSig   string             // set when a published image was seen with other bytes later
 	dialer     *dialer.Dialer
 	setupErr   string
+	dials      int // TCP dials started (DialLatency > 0)
+	dialing    int // TCP dials under way (DialLatency > 0)
+	maxDialing int
 }
 
 var c9Cur *c9Env
@@ -437,11 +458,12 @@ func (f *c9Spy) Close() error {
 
 type c9UDPSock struct {
 	*simnet.PacketConn
-	env          *c9Env
-	id           int
-	reader       int // managed thread blocked in ReadFrom, -1 = none
-	foreignClose bool
-	held         [][]byte
+	env            *c9Env
+	id             int
+	reader         int // managed thread blocked in ReadFrom, -1 = none
+	foreignClose   bool
+	held           [][]byte
+	closesAtRetire int // Close calls seen once every forwarder had been retired and nothing was in flight
 }
 
 func (s *c9UDPSock) String() string { return "udpsock" + strconv.Itoa(s.id) }
@@ -517,9 +539,10 @@ func (e *c9Env) udpUpstream(s *c9UDPSock, d simnet.Datagram) error {
 }
 
 type c9TCPConn struct {
-	id     int
-	a, b   *simnet.Conn
-	served int
+	id             int
+	a, b           *simnet.Conn
+	served         int
+	closesAtRetire int // Close calls seen once every forwarder had been retired and nothing was in flight
 }
 
 // tcpServe is the scripted DNS-over-TCP peer of one stream (its own managed thread).
@@ -595,6 +618,17 @@ func (d *c9NetDialer) DialContext(_ context.Context, network, addr string) (netp
 		s.PacketConn.OnWrite = func(_ *simnet.PacketConn, dg simnet.Datagram) error { return e.udpUpstream(s, dg) }
 		e.udpSocks = append(e.udpSocks, s)
 		return s, nil
+	}
+	if e.p.DialLatency > 0 {
+		// the handshake takes time: other queries reach the pool (and start dialing) meanwhile
+		e.dialing++
+		if e.dialing > e.maxDialing {
+			e.maxDialing = e.dialing
+		}
+		k := e.dials
+		e.dials++
+		time.Sleep(e.p.DialLatency + time.Duration(k)*e.p.DialStagger)
+		e.dialing--
 	}
 	a, b := simnet.Pair(&net.TCPAddr{IP: net.IPv4(10, 0, 0, 2), Port: 50000 + len(e.tcpConns)}, &net.TCPAddr{IP: net.ParseIP(c9UpstreamIP), Port: 53})
 	c := &c9TCPConn{id: len(e.tcpConns), a: a, b: b}
@@ -744,6 +778,13 @@ func (e *c9Env) setup() error {
 				return nil, err
 			}
 			spy.real = real
+			if t, ok := real.(*DoTCP); ok && p.PoolMax > 0 {
+				pool := t.getPool()
+				if pool == nil {
+					return nil, errors.New("c09 harness: DoTCP has no pool")
+				}
+				pool.maxConns = p.PoolMax
+			}
 		}
 		e.spies = append(e.spies, spy)
 		return spy, nil
@@ -887,8 +928,8 @@ func C09Scenario(p *C09Params) *vsched.Scenario {
 		}
 		last := len(e.clients) - 1
 		switch p.Background {
-		case "evict":
-			// the earlier clients create and use the forwarder, then it sits idle past the idle TTL
+		case "evict", "retire-last":
+			// the earlier clients create and use the forwarder, then ("evict") it sits idle past the idle TTL
 			for _, co := range e.clients[:last] {
 				co := co
 				vsched.GoNamed("client"+strconv.Itoa(co.idx), func() { e.runClient(co) })
@@ -901,19 +942,31 @@ func C09Scenario(p *C09Params) *vsched.Scenario {
 				}
 				return true
 			})
-			time.Sleep(c9IdleTTL + time.Second)
-			vsched.GoNamed("janitor-evict", func() {
-				e.ctrl.evictIdleDnsForwarders(time.Now())
-				e.bgDone = true
-			})
+			if p.Background == "retire-last" {
+				vsched.GoNamed("reload-retire", func() {
+					_ = e.ctrl.ResetDnsForwarders()
+					e.bgDone = true
+				})
+			} else {
+				time.Sleep(c9IdleTTL + time.Second)
+				vsched.GoNamed("janitor-evict", func() {
+					e.ctrl.evictIdleDnsForwarders(time.Now())
+					e.bgDone = true
+				})
+			}
 			co := e.clients[last]
 			vsched.GoNamed("client"+strconv.Itoa(co.idx), func() { e.runClient(co) })
-		case "retire":
+		case "retire", "retire-late":
 			for _, co := range e.clients {
 				co := co
 				vsched.GoNamed("client"+strconv.Itoa(co.idx), func() { e.runClient(co) })
 			}
 			vsched.GoNamed("reload-retire", func() {
+				if p.Background == "retire-late" {
+					// the reload arrives while the first exchanges are under way and completes with them (same virtual
+					// instant: which of the simultaneous timers fires first is a free choice of the scheduler)
+					time.Sleep(c9Latency)
+				}
 				_ = e.ctrl.ResetDnsForwarders()
 				e.bgDone = true
 			})
@@ -952,6 +1005,12 @@ func C09Scenario(p *C09Params) *vsched.Scenario {
 		vsched.Quiesce()
 		for _, f := range e.spies {
 			f.closesAtRetire = f.closes
+		}
+		for _, s := range e.udpSocks {
+			s.closesAtRetire = s.CloseCount
+		}
+		for _, c := range e.tcpConns {
+			c.closesAtRetire = c.a.CloseCount
 		}
 		_ = e.ctrl.Close() // stops the janitor and the evictor
 		e.finished = true
@@ -1090,6 +1149,9 @@ func c9Check(p *C09Params, r *vsched.Result) (string, any) {
 		if s.CloseCount == 0 {
 			return fmt.Sprintf("upstream UDP socket #%d was never closed (leaked)", s.id), detail
 		}
+		if s.closesAtRetire == 0 {
+			return fmt.Sprintf("upstream UDP socket #%d was still open when every forwarder had been retired and no query was in flight", s.id), detail
+		}
 		if s.CloseCount > 1 {
 			return fmt.Sprintf("upstream UDP socket #%d saw Close %d times", s.id, s.CloseCount), detail
 		}
@@ -1097,6 +1159,9 @@ func c9Check(p *C09Params, r *vsched.Result) (string, any) {
 	for _, c := range e.tcpConns {
 		if c.a.CloseCount == 0 {
 			return fmt.Sprintf("upstream TCP connection #%d was never closed (leaked)", c.id), detail
+		}
+		if c.closesAtRetire == 0 {
+			return fmt.Sprintf("upstream TCP connection #%d was still open when every forwarder had been retired and no query was in flight", c.id), detail
 		}
 		if c.a.CloseCount > 1 {
 			return fmt.Sprintf("upstream TCP connection #%d saw Close %d times", c.id, c.a.CloseCount), detail
@@ -1230,10 +1295,10 @@ func c9Detail(e *c9Env) map[string]any {
 	d["forwarders"] = fw
 	var so []string
 	for _, s := range e.udpSocks {
-		so = append(so, fmt.Sprintf("udp#%d closes=%d foreignClose=%v", s.id, s.CloseCount, s.foreignClose))
+		so = append(so, fmt.Sprintf("udp#%d closes=%d closesAtRetireAll=%d foreignClose=%v", s.id, s.CloseCount, s.closesAtRetire, s.foreignClose))
 	}
 	for _, c := range e.tcpConns {
-		so = append(so, fmt.Sprintf("tcp#%d closes=%d served=%d", c.id, c.a.CloseCount, c.served))
+		so = append(so, fmt.Sprintf("tcp#%d closes=%d closesAtRetireAll=%d served=%d", c.id, c.a.CloseCount, c.closesAtRetire, c.served))
 	}
 	d["sockets"] = so
 	var ca []string
@@ -1270,6 +1335,9 @@ func c9Outcome(r *vsched.Result) string {
 	}
 	for _, c := range e.tcpConns {
 		fmt.Fprintf(&sb, "t%d:%d/%d;", c.id, c.a.CloseCount, c.served)
+	}
+	if e.p.DialLatency > 0 {
+		fmt.Fprintf(&sb, "dials=%d;", e.maxDialing)
 	}
 	fmt.Fprintf(&sb, "cache=%d;fin=%v", len(e.cache), e.finished)
 	return sb.String()
